@@ -165,6 +165,7 @@ def run_init(mutate=None, prefixes=("C",), seeded=False, again=False, narrow=Non
         as_function = bool(SB(z3.Bool("currents_given_as_a_function"))) if "currents_given_as_a_function" in (narrow or {}) else False
         shared_currents = {"src": I_s, "drn": I_d}
         tc_arg = (lambda t: shared_currents) if as_function else {"src": I_s, "drn": I_d}
+        st0_ = instrument.module_state(LS)
         try:
             s = Solver(dev, o, applied_vector_potential=A_func, terminal_currents=tc_arg, disorder_epsilon=eps0, **seed_kw)
         except ValueError as e:
@@ -182,6 +183,11 @@ def run_init(mutate=None, prefixes=("C",), seeded=False, again=False, narrow=Non
             else:
                 check(f"C19.rejects.unexpected_rejection[{kind}]", False, note=msg)
             return
+        # frame condition: a solver is a function of its arguments - constructing one leaves nothing behind at module level that a later construction
+        # could pick up (memo tables keyed by object identity, code objects, sizes, ...).  Candidate: counts with the native replay.
+        ch_ = [k for k in instrument.module_state_changes(st0_, instrument.module_state(LS))]
+        for pf_ in sorted({p_.rstrip(".") for p_ in prefixes if len(p_) >= 3}):
+            check(f"{pf_}.init.the_solver_is_a_function_of_its_arguments.no_module_state_written", z3.BoolVal(not ch_), note=f"module-level state of tdgl.solver.solver changed by the constructor: {ch_}", weak=True)
         # ---- accepted: nothing ill-posed slipped through
         from pyvc.arr import univ_instances
         check("C19.accepts_only_well_posed.epsilon", eps0.e <= 1, extra=univ_instances([SI(0)]))
